@@ -245,7 +245,7 @@ def obligations(tier, seed):
         plan += [(s, "1.1") for s in c11]
         dplan = [(s, v) for s in deep for v in ("1.0", "1.1")]
     edc = S.catalogue_edc()
-    plan += [(s, v) for s in edc for v in ("1.0", "1.1")]
+    plan += [(s, v) for s in edc for v in ("1.0", "1.1") if not (tier == "quick" and len(S.nodes_preorder(s)) > 4)]
     for s, v in plan:
         n = len(S.nodes_preorder(s))
         label = S.shape_id(s).replace(' ', '')
